@@ -1070,12 +1070,21 @@ class Data(BaseCartesianData):
         Raises
         ------
            `TypeError`, if label is invalid.
-           `ValueError`, if the component has an incompatible shape.
+           `ValueError`, if the component has an incompatible shape, or if
+           ``label`` is a ComponentID that is already in use in this data set
+           for a component of a different kind (a pixel or world coordinate
+           component, or a derived vs. a regular component).
 
         Returns
         -------
         :class:`glue.core.component_id.ComponentID`
            The ComponentID associated with the newly-added component.
+
+        Notes
+        -----
+        If ``label`` is a ComponentID that is already in use in this data set,
+        the component stored under it is replaced, which is announced with a
+        :class:`~glue.core.message.NumericalDataChangedMessage`.
         """
 
         if isinstance(component, ComponentLink):
@@ -1083,6 +1092,18 @@ class Data(BaseCartesianData):
 
         if not isinstance(component, Component):
             component = Component.autotyped(component)
+
+        # If the ComponentID is already in use, the existing component is
+        # replaced - this is only possible with a component of the same kind
+        # (and never for the pixel and world coordinate components, which are
+        # managed by the data set itself)
+        current = self._components.get(label) if isinstance(label, ComponentID) else None
+        if current is not None and current is not component:
+            if (isinstance(current, CoordinateComponent) or
+                    isinstance(component, CoordinateComponent) or
+                    isinstance(current, DerivedComponent) != isinstance(component, DerivedComponent)):
+                raise ValueError("%s is already in use in this data for a "
+                                 "different kind of component" % label)
 
         if isinstance(component, DerivedComponent):
             if len(self._components) == 0:
@@ -1116,7 +1137,16 @@ class Data(BaseCartesianData):
         is_present = component_id in self._components
         self._components[component_id] = component
 
-        if self.hub and not is_present:
+        if is_present:
+            if current is not component:
+                # The values under an existing ComponentID changed: as in
+                # update_components, cached masks are dropped before anyone
+                # is told about the change
+                clear_all_caches()
+                if self.hub:
+                    msg = NumericalDataChangedMessage(self, components_changed=[component_id])
+                    self.hub.broadcast(msg)
+        elif self.hub:
             msg = DataAddComponentMessage(self, component_id)
             self.hub.broadcast(msg)
             msg = ComponentsChangedMessage(self)
